@@ -2,6 +2,7 @@
 //!
 //!   fidelity <n>                 real derived family n vs its Dyn twin (must print fidelity=ok)
 //!   ser <type> <value>           the 7 encoding routes + round trip of each result          (C07)
+//!   consts                       the reserved names of the in-band tunnels                  (C07)
 //!   routes <type> <doc> <val>    every decoding route on a document / single-value text    (C13)
 //!   routes_ser <type> <value>    the same on the text obtained by serializing the value    (C13)
 //!   tryfrom <type> <value>       Value/Table::try_from vs parse(to_string)                 (C13)
@@ -76,6 +77,78 @@ fn cmd_fidelity(args: &Args) -> String {
     }
 }
 
+/// the value tree of a document (token syntax of `tomlvalue_string`, keys in document order): what
+/// the Coq model of the serializers computes
+fn dump_item(item: &toml_edit::Item, out: &mut Vec<String>) {
+    match item {
+        toml_edit::Item::None => out.push("NONE".into()),
+        toml_edit::Item::Value(v) => dump_value(v, out),
+        toml_edit::Item::Table(t) => {
+            out.push(format!("T{}", t.len()));
+            for (k, v) in t.iter() {
+                out.push(format!("S{}", hex_nodash(k)));
+                dump_item(v, out);
+            }
+        }
+        toml_edit::Item::ArrayOfTables(a) => {
+            out.push(format!("L{}", a.len()));
+            for t in a.iter() {
+                out.push(format!("T{}", t.len()));
+                for (k, v) in t.iter() {
+                    out.push(format!("S{}", hex_nodash(k)));
+                    dump_item(v, out);
+                }
+            }
+        }
+    }
+}
+
+fn hex_nodash(s: &str) -> String {
+    if s.is_empty() {
+        String::new()
+    } else {
+        hex(s.as_bytes())
+    }
+}
+
+fn dump_value(v: &toml_edit::Value, out: &mut Vec<String>) {
+    match v {
+        toml_edit::Value::String(s) => out.push(format!("S{}", hex_nodash(s.value()))),
+        toml_edit::Value::Integer(i) => out.push(format!("I{}", i.value())),
+        toml_edit::Value::Float(f) => out.push(format!("D{:016x}", f.value().to_bits())),
+        toml_edit::Value::Boolean(b) => out.push(format!("B{}", *b.value() as u8)),
+        toml_edit::Value::Datetime(d) => out.push(format!("X{}", hex_nodash(&d.value().to_string()))),
+        toml_edit::Value::Array(a) => {
+            out.push(format!("L{}", a.len()));
+            for e in a.iter() {
+                dump_value(e, out);
+            }
+        }
+        toml_edit::Value::InlineTable(t) => {
+            out.push(format!("T{}", t.len()));
+            for (k, e) in t.iter() {
+                out.push(format!("S{}", hex_nodash(k)));
+                dump_value(e, out);
+            }
+        }
+    }
+}
+
+fn doc_tree(d: &toml_edit::DocumentMut) -> String {
+    let mut out = Vec::new();
+    dump_item(d.as_item(), &mut out);
+    out.join(",")
+}
+
+fn cmd_consts() -> String {
+    format!(
+        "dt_name={} dt_field={} spanned_name={}",
+        hex(toml_datetime::__unstable::NAME.as_bytes()),
+        hex(toml_datetime::__unstable::FIELD.as_bytes()),
+        hex(serde_spanned::__unstable::NAME.as_bytes())
+    )
+}
+
 fn cmd_ser(args: &Args) -> String {
     let (ty, v) = match ty_val(args) {
         Ok(x) => x,
@@ -102,6 +175,16 @@ fn cmd_ser(args: &Args) -> String {
                 };
                 if invalid {
                     parts.push("INVALID".into());
+                }
+                // the value tree of the output (for the correspondence with the Coq model)
+                match &enc {
+                    Enc::Text(s) => {
+                        if let Ok(d) = s.parse::<toml_edit::DocumentMut>() {
+                            parts.push(format!("tree:{}", doc_tree(&d)));
+                        }
+                    }
+                    Enc::Doc(d) => parts.push(format!("tree:{}", doc_tree(d))),
+                    _ => {}
                 }
                 for (tag, res) in with_type(&ty, || decode_enc::<DynOwned>(&enc)) {
                     parts.push(match res {
@@ -376,6 +459,7 @@ fn run_cmd(cmd: &str, args: &Args) -> String {
     match cmd {
         "fidelity" => cmd_fidelity(args),
         "ser" => cmd_ser(args),
+        "consts" => cmd_consts(),
         "routes" => cmd_routes(args),
         "routes_ser" => cmd_routes_ser(args),
         "tryfrom" => cmd_tryfrom(args),
